@@ -25,6 +25,7 @@ class TaskAndThreadKeeper:
         self._counter = ThreadTaskIdComposer()
         self._main_thread: Optional[Thread] = None
         self._to_end: Optional[Thread] = None
+        self._closed = False
         self._logger = getLogger(__name__)
 
     @hookimpl
@@ -44,8 +45,17 @@ class TaskAndThreadKeeper:
             yield
         finally:
             self._callback.close()
+            self._closed = True
             if self._to_end:
                 self._on_end(self._to_end)
+
+    @hookimpl(tryfirst=True)
+    def filter(self) -> bool | None:
+        # Reject all after the context exits. A thread started by the script can
+        # call a function of the script for the first time afterward, e.g., a
+        # timer thread, which the interpreter waits for at its exit. Nothing can
+        # prompt such a thread or tell when it ends any longer.
+        return self._closed or None
 
     @hookimpl
     def filtered(self) -> None:
